@@ -59,7 +59,19 @@ inductive ExitRes where
   | raise (e : Exc)
   deriving DecidableEq, Repr
 
-abbrev ExitF := Cfg → Bool → Option Exc → G → ExitRes × G
+/-- `__exit__` as a function of the configuration, the DEPTH it adds to the logger's depth option
+    (see `depthOf`), the exception (if any) and the world -/
+abbrev ExitF := Cfg → Nat → Option Exc → G → ExitRes × G
+
+/-- `if from_decorator: depth += 1` followed by `depth += _frames` -/
+def depthOf (fromDecorator : Bool) (frames : Nat) : Nat := (if fromDecorator then Gen.depthIncr else 0) + frames
+
+/-- decorator wrappers: `Catcher(True)`, `__exit__` called by the `with` statement of `catch_wrapper` -/
+def decoratorDepth : Nat := depthOf Gen.decoratorFromDecorator Gen.syncExitFrames
+/-- `with logger.catch():` – `Catcher(False)`, `__exit__` called by the `with` statement -/
+def withDepth : Nat := depthOf Gen.contextFromDecorator Gen.syncExitFrames
+/-- `async with logger.catch():` – `__aexit__` calls `self.__exit__(…, _frames=1)` -/
+def asyncWithDepth : Nat := depthOf Gen.contextFromDecorator Gen.asyncExitFrames
 
 def fires (cfg : Cfg) (e : Option Exc) (g : G) : ExitTest → Bool
   | .noneType => e.isNone
@@ -73,26 +85,30 @@ def fires (cfg : Cfg) (e : Option Exc) (g : G) : ExitTest → Bool
 
 /-- `with catcher: <body>` followed by `return dflt` (decorator: `dflt = default`; bare `with`
     statement: execution simply continues, `dflt = None`) -/
-def runWith (exitF : ExitF) (cfg : Cfg) (fromDec : Bool) (dflt : Val) (body : G → CallRes × G) (g : G) :
+def runWith (exitF : ExitF) (cfg : Cfg) (depth : Nat) (dflt : Val) (body : G → CallRes × G) (g : G) :
     CallRes × G :=
   match body g with
   | (.ret v, g1) =>
-    match exitF cfg fromDec none g1 with
+    match exitF cfg depth none g1 with
     | (.raise x, g2) => (.raise x, g2)
     | (_, g2) => (.ret v, g2)
   | (.raise e, g1) =>
-    match exitF cfg fromDec (some e) g1 with
+    match exitF cfg depth (some e) g1 with
     | (.suppress, g2) => (.ret dflt, g2)
     | (.propagate, g2) => (.raise e, g2)
     | (.raise x, g2) => (.raise x, g2)
 
 /-- the plain-function wrapper: `with catcher: return function(*args, **kwargs)` / `return default` -/
 def callWrapped (exitF : ExitF) (cfg : Cfg) (body : G → CallRes × G) (g : G) : CallRes × G :=
-  runWith exitF cfg Gen.decoratorFromDecorator cfg.default body g
+  runWith exitF cfg decoratorDepth cfg.default body g
 
-/-- `with logger.catch(...):` / `async with logger.catch(...):` around a block -/
+/-- `with logger.catch(...):` around a block -/
 def withBlock (exitF : ExitF) (cfg : Cfg) (body : G → CallRes × G) (g : G) : CallRes × G :=
-  runWith exitF cfg Gen.contextFromDecorator 0 body g
+  runWith exitF cfg withDepth 0 body g
+
+/-- `async with logger.catch(...):` around a block (`__aenter__/__aexit__` delegate to `__enter__/__exit__`) -/
+def asyncWithBlock (exitF : ExitF) (cfg : Cfg) (body : G → CallRes × G) (g : G) : CallRes × G :=
+  runWith exitF cfg asyncWithDepth 0 body g
 
 /-- `logger._log(level, from_decorator, catch_options, message, (), {})`: the record reaches the
     sink; while it is produced the environment's probes run through THEIR catch wrappers (`exitF`);
@@ -105,13 +121,12 @@ def logCall (exitF : ExitF) (env : Env) (level depth : Nat) (e : Exc) (g : G) : 
   (env.logRaises e, g2)
 
 /-- `Catcher.__exit__(type_, value, traceback_)` -/
-def exitCore (logF : Nat → Nat → Exc → G → Option Exc × G) (cfg : Cfg) (fromDec : Bool)
+def exitCore (logF : Nat → Nat → Exc → G → Option Exc × G) (cfg : Cfg) (depth : Nat)
     (e : Option Exc) (g : G) : ExitRes × G :=
   if Gen.exitTests.any (fires cfg e g) then (.propagate, g) else
   match e with
   | none => (.propagate, g)
   | some x =>
-    let depth := if fromDec then Gen.depthIncr else 0
     let g1 := { g with flag := true }
     match logF cfg.level depth x g1 with
     | (lr, g2) =>
@@ -151,11 +166,11 @@ inductive WState (τ : Type) where
 def finishWith {τ : Type} (exitF : ExitF) (cfg : Cfg) : DRes × τ × G → Outcome × WState τ × G
   | (.yield v, t, g) => (.yield v, .delegating t, g)
   | (.value v, t, g) =>
-    match exitF cfg Gen.decoratorFromDecorator none g with
+    match exitF cfg decoratorDepth none g with
     | (.raise x, g') => (.raise x, .delegating t, g')
     | (_, g') => (.ret v, .delegating t, g')
   | (.raise e, t, g) =>
-    match exitF cfg Gen.decoratorFromDecorator (some e) g with
+    match exitF cfg decoratorDepth (some e) g with
     | (.suppress, g') => (.ret cfg.default, .delegating t, g')
     | (.propagate, g') => (.raise e, .delegating t, g')
     | (.raise x, g') => (.raise x, .delegating t, g')
@@ -181,15 +196,15 @@ def wrappedInit {σ : Type} (s0 : σ) : GState (WState (GState σ)) := .unstarte
     except: raise` / `raise StopAsyncIteration` -/
 def agAsend {τ : Type} (exitF : ExitF) (cfg : Cfg) : ARes × τ × G → ARes × τ × G
   | (.yield y, t, g) =>
-    match exitF cfg Gen.decoratorFromDecorator none g with
+    match exitF cfg decoratorDepth none g with
     | (.raise x, g') => (.raise x, t, g')
     | (_, g') => (.yield y, t, g')
   | (.stopAsync, t, g) =>
-    match exitF cfg Gen.decoratorFromDecorator none g with
+    match exitF cfg decoratorDepth none g with
     | (.raise x, g') => (.raise x, t, g')
     | (_, g') => (.stopAsync, t, g')
   | (.raise e, t, g) =>
-    match exitF cfg Gen.decoratorFromDecorator (some e) g with
+    match exitF cfg decoratorDepth (some e) g with
     | (.suppress, g') => (.stopAsync, t, g')
     | (.propagate, g') => (.raise e, t, g')
     | (.raise x, g') => (.raise x, t, g')
